@@ -59,13 +59,15 @@ def merge (a b : Content) : Content := b.foldl (fun acc p => acc.add p.1 p.2) a
 /-- pointwise product by a scalar (`w ≠ 0`) -/
 def scale (m : Content) (w : Rat) : Content := m.map (fun p => (p.1, p.2 * w))
 
+/-- every entry moved to the index `f` assigns to it (weights landing on one index add up) -/
+def relabel (f : Int → Int) (m : Content) : Content :=
+  m.foldl (fun acc p => acc.add (f p.1) p.2) []
+
 /-- every index below `e` moved onto `e` -/
-def foldLow (m : Content) (e : Int) : Content :=
-  m.foldl (fun acc p => acc.add (if p.1 < e then e else p.1) p.2) []
+def foldLow (m : Content) (e : Int) : Content := relabel (fun i => if i < e then e else i) m
 
 /-- every index above `e` moved onto `e` -/
-def foldHigh (m : Content) (e : Int) : Content :=
-  m.foldl (fun acc p => acc.add (if e < p.1 then e else p.1) p.2) []
+def foldHigh (m : Content) (e : Int) : Content := relabel (fun i => if e < i then e else i) m
 
 /-- content of a lowest-collapsing store with limit `N` that absorbed `m` -/
 def specLow (N : Nat) (m : Content) : Content :=
